@@ -1,5 +1,39 @@
 (* C12 - views. Property theorems only. *)
-From Rosmar Require Import Base Json Crc Hlc Kv Store Trace KvTac KvRowOk KvLift KvFrame.
+From Rosmar Require Import Base Json Crc Hlc Kv Store Trace KvTac KvRowOk KvLift KvFrame ViewProofs ViewInv.
+
+(* In every store any history of well-formed calls reaches - all key-value entry points, purge, collection
+   create/drop, design-document replacement, stale and non-stale view queries anywhere, expiry firing, reopen -
+   a view query without stale=ok answers from an index which holds, for every document id k, exactly the
+   rows the map function emits for the current version of document k of that collection (scratch_for: none
+   if there is no such document), collated, filtered and limited by select_rows.                          *)
+Theorem C12_nonstale_query_is_map_of_current_docs :
+  forall steps x coll ddoc name p cid v rest, wf_steps steps ->
+  let s := sfinal_from store0 steps in
+  coll_id s coll = Some cid -> filter (is_view cid ddoc name) (s_views s) = v :: rest -> vp_stale p = false ->
+  exists rows,
+    sr_resp (sstep s x (SView coll ddoc name p)) = RRows (map render_vrow (select_rows p rows))
+    /\ (forall k, filter (fun row : vrow => String.eqb (fst (fst row)) k) rows = scratch_for s cid (vd_map v) k).
+Proof. exact C12_reachable. Qed.
+Print Assumptions C12_nonstale_query_is_map_of_current_docs.
+
+(* the invariant behind it is kept by every step: each document is indexed or pending re-mapping, and no row
+   belongs to a document that no longer exists *)
+Theorem C12_invariant_every_step : forall s x o, wf_sop o -> views_inv s -> views_inv (sr_store (sstep s x o)).
+Proof. exact sstep_views_inv. Qed.
+Print Assumptions C12_invariant_every_step.
+
+Theorem C12_index_membership : forall s v row, views_inv s -> view_ok s v ->
+  In row (vd_rows (update_view s v)) <->
+  exists r, get_doc s (vd_coll v, fst (fst row)) = Some r /\ In row (expected_rows (vd_map v) (fst (fst row)) r).
+Proof. exact nonstale_index_membership. Qed.
+Print Assumptions C12_index_membership.
+
+(* the result does not depend on how many times or when the index was updated *)
+Theorem C12_independent_of_update_history : forall s1 s2 v1 v2 k, views_inv s1 -> views_inv s2 -> view_ok s1 v1 -> view_ok s2 v2 ->
+  vd_map v1 = vd_map v2 -> (forall key, get_doc s1 (vd_coll v1, key) = get_doc s2 (vd_coll v2, key)) ->
+  rows_of (update_view s1 v1) k = rows_of (update_view s2 v2) k.
+Proof. exact index_independent_of_history. Qed.
+Print Assumptions C12_independent_of_update_history.
 
 (* sorting the index rows for a query neither drops nor invents rows *)
 Theorem C12_sort_keeps_rows : forall l x, In x (sort_vrows l) <-> In x l.
